@@ -14,6 +14,9 @@ use serde_json::json;
 enum Case {
     /// consistent chain: genesis, B(k txs), B(1); optional --start
     Pass { coin: &'static str, k: usize, start: Option<u64>, auxpow: bool },
+    /// consistent 5-block chain indexed at heights base..base+4 only (sparse index), --verify --start base+1;
+    /// `flip`: one bit of the prev-hash field of block base+2 flipped (must fail there)
+    HighPass { base: u64, flip: bool },
     /// flip one bit of the stored block at `height`, at byte `off` (relative to the block start) bit `bit`
     Flip { txs_per_block: usize, height: u64, off: usize, bit: u8, region: &'static str, start: Option<u64> },
     /// index record of `height` points at the stored data of another block
@@ -130,6 +133,10 @@ pub fn run() -> Report {
             cases.push(Case::Pass { coin: cn, k, start: None, auxpow: true });
         }
     }
+    for base in [127u64, 16_511, 2_113_663, 270_549_119, (1 << 32) - 2, 1 << 40] {
+        cases.push(Case::HighPass { base, flip: false });
+        cases.push(Case::HighPass { base, flip: true });
+    }
     // must fail: single-bit flips
     let btc = coin("bitcoin");
     let tpbs: Vec<usize> = if thorough { vec![1, 2, 3, 4, 5, 8] } else { vec![1, 2, 3] };
@@ -162,7 +169,7 @@ pub fn run() -> Report {
     for c in COINS.iter() {
         cases.push(Case::WrongGenesis { coin: c.name });
     }
-    rep.rule = "must pass: genesis,B(k),B(1) for k in 1..17,31,32,33,64,65 (every merkle-tree shape with an odd level up to depth 6) on bitcoin, k in {1,2,3,5} x --start {0,1,2} on all 8 coins, AuxPoW chains; must fail at that height: every single-bit flip of prev-hash field, merkle field and tx bytes of every block of 4-block chains with 1/2/3 txs per block, prev-field flips of the first processed block under --start, block swaps, wrong block 0 for 8 coins; non-trivial = distinct case (pass cases: exit 0 with model-equal output; fail cases: corrupted byte inside the processed range)".into();
+    rep.rule = "must pass: genesis,B(k),B(1) for k in 1..17,31,32,33,64,65 (every merkle-tree shape with an odd level up to depth 6) on bitcoin, k in {1,2,3,5} x --start {0,1,2} on all 8 coins, AuxPoW chains, sparse indexes at heights up to 2^40 with --start (pass, and fail with a flipped prev field); must fail at that height: every single-bit flip of prev-hash field, merkle field and tx bytes of every block of 4-block chains with 1/2/3 txs per block, prev-field flips of the first processed block under --start, block swaps, wrong block 0 for 8 coins; non-trivial = distinct case (pass cases: exit 0 with model-equal output; fail cases: corrupted byte inside the processed range)".into();
     rep.bound = json!({"cases": cases.len(), "flip_chains": "4 blocks x {1,2,3} txs", "flip_density": "every bit", "txs_per_block": if thorough { "1,2,3,4,5,8" } else { "1,2,3" }});
     rep.not_covered = vec!["multi-bit corruptions other than block swaps".into(), "witness bytes / marker / flag (not txid-covered; don't-care)".into()];
     let root = refmodel::world::scratch_root();
@@ -215,6 +222,44 @@ pub fn run() -> Report {
                     if let Some((sig, detail)) = bad.into_iter().next() {
                         let rc = if *k > 20 { json!({"kind": "e1-described", "case": format!("{:?}", c)}) } else { replay_case(&world, &spec, json!({"must": "pass"}), &r, &wk.dir) };
                         acc.disagree(&sig, format!("{:?}: {}", c, detail), rc);
+                    }
+                }
+                Case::HighPass { base, flip } => {
+                    let btc = coin("bitcoin");
+                    let mut cb = ChainBuilder::at(btc, *base);
+                    for _ in 0..5 {
+                        cb.push(vec![TxP::base().build(7)]);
+                    }
+                    let mut world = World::new(btc);
+                    let mut recs = Vec::new();
+                    for (i, b) in cb.blocks.iter().enumerate() {
+                        recs.push(world.add_block(i as u64, base + i as u64, b));
+                    }
+                    if *flip {
+                        let f = world.files.get_mut(&2).unwrap();
+                        let mut d = f.dense();
+                        d[recs[2].data_pos as usize + 10] ^= 0x04;
+                        f.chunks = vec![(0, d)];
+                    }
+                    let spec = RunSpec::new("bitcoin", "csvdump").verify(true).range(Some(base + 1), None);
+                    let r = match wk.world_run(&world, &spec) {
+                        Ok(r) => r,
+                        Err(m) => return acc.machinery(m),
+                    };
+                    acc.count("sparse-high-height-verify", 1);
+                    if *flip {
+                        if let Some((sig, detail)) = judge_fail(&r, base + 2) {
+                            acc.disagree(&format!("{}:prev@high-height", sig), format!("{:?}: {}", c, detail), replay_case(&world, &spec, json!({"must": "fail", "height": base + 2}), &r, &wk.dir));
+                        }
+                    } else {
+                        let (s0, e0) = (r.declared_start().unwrap_or(base + 1), r.declared_end().unwrap_or(base + 4));
+                        let mut bad = check_csvdump(&r, btc, &in_range(&cb.mblocks(), s0, e0), s0, e0);
+                        if r.code != Some(0) && !r.panicked() {
+                            bad.insert(0, ("consistent-chain-rejected".into(), format!("exit {:?}: {}", r.code, r.stderr.lines().take(3).collect::<Vec<_>>().join(" | "))));
+                        }
+                        if let Some((sig, detail)) = bad.into_iter().next() {
+                            acc.disagree(&format!("{}:high-height", sig), format!("{:?}: {}", c, detail), replay_case(&world, &spec, json!({"must": "pass"}), &r, &wk.dir));
+                        }
                     }
                 }
                 Case::Flip { txs_per_block, height, off, bit, region, start } => {
